@@ -11,9 +11,9 @@ for a in "$@"; do
 done
 for a in "$@"; do
   case "$a" in quick|thorough) ;; *)
-    cp /verif/evidence/$a.json /tmp/evidence-$a.bak 2>/dev/null
-    /verif/check "$a" "$TIER" 2>&1 | grep -v "WARNING conda" | cut -c1-260 | grep -v "^KNOWN-FINDING" | tail -8
+    cp ${VERIF_DIR:-/verif}/evidence/$a.json /tmp/evidence-$a.bak 2>/dev/null
+    ${VERIF_DIR:-/verif}/check "$a" "$TIER" 2>&1 | grep -v "WARNING conda" | cut -c1-260 | grep -v "^KNOWN-FINDING" | tail -8
     echo "exit=$? (of tail) ; check $a $TIER done"
-    cp /tmp/evidence-$a.bak /verif/evidence/$a.json 2>/dev/null
+    cp /tmp/evidence-$a.bak ${VERIF_DIR:-/verif}/evidence/$a.json 2>/dev/null
   ;; esac
 done
